@@ -319,7 +319,7 @@ fn check_history(h: &Hist, r: &mut Report, rp: &dyn Fn() -> Json) -> Option<Stri
 }
 
 pub fn run(cfg: &Cfg, rep: &mut Report) {
-    rep.rule = "histories of 3..30 instructions (OpTypeInt/OpTypeFloat of widths 0..128 dense around 8/16/32/64, value definitions typed by them, OpConstant/OpSpecConstant/OpSwitch consumers with 0..4 cases, noise) generated against the type-width model; each parsed alone (delivered literal widths, unsupported-type errors, re-assembled word counts, H3 tracker events), then re-parsed after a poisoning history that binds the same ids to other widths, and on all threads at once; outcomes must be identical. distinct_nontrivial = distinct (consumer opcode, width) and unsupported-type classes observed".into();
+    rep.rule = "histories of 3..30 instructions (OpTypeInt/OpTypeFloat of widths 0..128 dense around 8/16/32/64, value definitions typed by them or by composite types over them (vector, matrix, pointer: one word whatever the component), OpConstant/OpSpecConstant/OpSwitch consumers with 0..4 cases, noise) generated against the type-width model; each parsed alone (delivered literal widths, unsupported-type errors, re-assembled word counts, H3 tracker events), then re-parsed after a poisoning history that binds the same ids to other widths, and on all threads at once; outcomes must be identical. distinct_nontrivial = distinct (consumer opcode, width) and unsupported-type classes observed".into();
     let n = cfg.n(120_000, 15_000_000);
     run_stage(cfg, rep, "histories", n, |idx, rng, r| {
         let rp = || crate::util::replay_ref(cfg, "histories", idx);
